@@ -137,7 +137,7 @@ fn now_us(t0: tokio::time::Instant) -> u64 {
 }
 
 /// after the token: write `n_w` keyed bytes, read and verify `n_r`, hold, shutdown, read to end, drop
-async fn exchange(halves: (librqbit_utp::UtpStreamReadHalf, librqbit_utp::UtpStreamWriteHalf), pre: Option<[u8; TOKEN_LEN]>, ws: Stream, n_w: u32, rs: Stream, n_r: u32, hold_ms: u32, t0: tokio::time::Instant, upd: impl Fn(&dyn Fn(&mut StreamOut))) {
+pub async fn exchange(halves: (librqbit_utp::UtpStreamReadHalf, librqbit_utp::UtpStreamWriteHalf), pre: Option<[u8; TOKEN_LEN]>, ws: Stream, n_w: u32, rs: Stream, n_r: u32, hold_ms: u32, t0: tokio::time::Instant, upd: impl Fn(&dyn Fn(&mut StreamOut))) {
     let (mut r, mut w) = halves;
     let io = async {
         // write
